@@ -29,7 +29,7 @@ CFG = dict(
         "engine F extractor /verif/go/facts/c01.go (syntactic, intra-procedural provenance of store targets; conservative by construction; "
         "stores done by callees outside the scanned files are not tracked except sort.*/slices.Sort*)",
         "C01 heap abstraction (Model/MeshHeap.lean): one untyped cell heap + map objects; the assignment of each public "
-        "operation to a memory-behaviour class is derived from the source for the 76 Mesh-returning functions of modeling/mesh.go and modeling/meshops "
+        "operation to a memory-behaviour class is derived from the source for the 101 Mesh-returning functions / transformer methods of modeling/mesh.go and modeling/meshops "
         "(classification_from_source + class_realises) and otherwise checked by the heap-shape correspondence (reflect-observed sharing graph) "
         "and the value-level oracle, on generated histories",
         "reflect/unsafe reading of (data pointer, len, cap) and map identity of unexported Mesh fields; Go's non-moving GC",
@@ -59,14 +59,15 @@ CFG = dict(
         "are kept, replaced or deleted, not how meshops compute the new contents: that is C03)",
         "caller-owned slices/maps handed to NewMesh/Set*/SetFloatNData and the slice returned by Materials() are the caller's to leave alone (the harness never mutates them)",
         "concurrent use of one mesh from several goroutines is outside this property",
-        "CLASSIFICATION, what is now derived from the source and what is not: for the 52 exported Mesh-returning functions of modeling/mesh.go and the 24 of "
-        "modeling/meshops the sharing summary (which component of the result is the receiver's / an argument's, which is allocated in the call) is regenerated by "
+        "CLASSIFICATION, what is now derived from the source and what is not: for the 52 exported Mesh-returning functions of modeling/mesh.go, the 24 of "
+        "modeling/meshops and the Transform methods of its 25 transformers (101 rows) the sharing summary (which component of the result is the receiver's / an argument's, which is allocated in the call) is regenerated by "
         "go/facts/c01_classes.go and compared with the class summary by classification_from_source; class_realises proves the model operation has that summary. "
-        "STILL CORRESPONDED ONLY (sharing graph + value snapshots on generated histories): Mesh.Transform (dynamic dispatch over caller-supplied Transformers) and the "
-        "meshops *Transformer.Transform methods it calls (two results; they wrap the summarised functions); meshops functions returning several meshes (split / slice); "
+        "STILL CORRESPONDED ONLY (sharing graph + value snapshots on generated histories): Mesh.Transform itself (dynamic dispatch over caller-supplied Transformers, "
+        "applied one after the other: the methods it dispatches to in /repo ARE summarised, success path only - on the error path they return the zero Mesh), "
+        "meshops.CustomTransformer (caller-supplied function), SliceByPlaneTransformer and the meshops functions returning several meshes (split / slice); "
         "modeling/repeat, modeling/primitives and the format readers (class newMesh); the writers / iterators / scans that return no mesh (class readOnly: covered by "
-        "store_sites_fresh, not by a summary); shareMaterials (the composition m.SetMaterials(src.Materials()) made by the caller). meshops.RemoveNullFaces3D behaves as "
-        "one of two classes (returns its input, or rebuilds): the extractor joins all return statements, so it is compared per component with the UNION of the two "
+        "store_sites_fresh, not by a summary); shareMaterials (the composition m.SetMaterials(src.Materials()) made by the caller). meshops.RemoveNullFaces3D (+ its transformer) and VertexColorSpaceTransformer behave as "
+        "one of two classes (return their input, or rebuild / replace one attribute): the extractor joins all return statements, so it is compared per component with the UNION of the two "
         "class summaries (weaker than 'one of the two as a whole'). The comparison is 'fits' (every source found is one the class allows), not equality. "
         "The summary extractor is syntactic (go/ast, no type information): callees are resolved by name (unique function / method with a mesh or non-mesh receiver) "
         "in modeling/mesh.go, modeling/meshops and math/trs; anything unresolved is `unknown` and fails the theorem; memory handed in by the caller (slice / map "
@@ -79,7 +80,7 @@ CFG = dict(
              "replace-one-attribute, copy-attribute, rebuild, read-only, Append as it is now = copy-then-extend, transcribed loop by loop): "
              "op_frame / op_writes_fresh_only (an operation writes only memory it allocated - for the eleven non-Append classes this holds by "
              "construction of the class, which only allocates; the content is the transcribed Append and the classification of every Go "
-             "function into its class, which is DERIVED FROM THE SOURCE for the 76 exported Mesh-returning functions of modeling/mesh.go and modeling/meshops "
+             "function into its class, which is DERIVED FROM THE SOURCE for the 101 exported Mesh-returning functions / transformer methods of modeling/mesh.go and modeling/meshops "
              "(classification_from_source: decide over the regenerated sharing summaries vs the hand classification the harness uses, tied by c01.class lines; "
              "class_realises: in every state the model operation of a class shares / allocates exactly the components its summary says) and corresponded "
              "through the observed sharing graph and value snapshots for the rest (Transform, transformers, repeat, primitives, readers), history_immutable (for every finite history of operations picking arguments anywhere in the pool - branching "
